@@ -231,7 +231,13 @@ def run(res, tier, seed):
         if leaked:
             bad_print.append((i, leaked))
     res.oblige("Spec on real output: a print message suppressed or replaced by the filter leaves nothing on the screen", not bad_print, bad_print[:2])
+    # messages that do not come from Send callers go through the filter as well: the message of an Exec callback, and
+    # the message the signal handler forwards
+    extra_bad = extra_families(res, tier, rnd)
     found = False
+    for sig, what, payload in extra_bad[:1]:
+        res.violation(sig, what, payload)
+        found = True
     for i, leaked in bad_print[:1]:
         res.violation("C16:suppressed-effect", "a message the filter suppressed (or replaced) still had its built-in effect: printed line(s) %s appear in the output" % leaked,
                       {"case": cases[i], "leaked": leaked})
@@ -268,6 +274,52 @@ def run(res, tier, seed):
     res.samples = [{"msgs": [code(m)[2] for m in c["msgs"]], "filter": c["filter"]} for c in cases[:4]]
     return res.finish(rule="random message histories (user, every mode message, quit, interrupt, batch, sequence, print, window size, title, repaint) x random per-key policies (drop / replace by any kind / keep) x options; one sender; distinct = (history, policy)",
                       trusted_extra=TRUSTED)
+
+
+def extra_families(res, tier, rnd):
+    scs, metas = [], []
+    for verdict in ("drop", "replace", "keep"):
+        for ok in (True, False):
+            flt = {"drop": ["u:9000"]} if verdict == "drop" else {"replace": {"u:9000": P.U(77)}} if verdict == "replace" else {}
+            script = [P.W("started"), P.W("idle"), P.DO("send", msg=P.B("exec", cb=True, ok=ok)), P.DO("sleep", us=60000), P.W("idle"),
+                      P.DO("send", msg=P.U(5)), P.W("idle"), P.DO("kill"), P.W("returned")]
+            scs.append(P.scenario(len(scs), script, opts={"fps": 120, "filter": flt}, parallel_ok=True, watchdog_ms=4000))
+            metas.append({"family": "exec-callback", "verdict": verdict, "ok": ok})
+    for sig in ("int", "term"):
+        # a filter that vetoes quit requests: every signal is swallowed, the program goes on
+        script = [P.W("started"), P.W("idle"), P.DO("sleep", us=20000)]
+        for k in range(3):
+            script += [P.DO("signal", sig=sig), P.DO("sleep", us=50000), P.DO("send", msg=P.U(40 + k)), P.W("idle")]
+        script += [P.DO("kill"), P.W("returned")]
+        scs.append(P.scenario(len(scs), script, opts={"fps": 120, "nosighandler": False, "filter": {"drop": ["b:interrupt", "b:quit"]}}, isolate=True, watchdog_ms=4000))
+        metas.append({"family": "signal-veto", "sig": sig})
+    results, _ = P.run_scenarios("C16_extra", scs, timeout=600)
+    bad = []
+    for m, r in zip(metas, results):
+        ev = r["events"]
+        if P.machinery_problem(r) or not r["run_returned"]:
+            bad.append(("C16:extra-hang", "scenario %s did not complete" % m, {"meta": m, "result": P.summarize(r)}))
+            continue
+        fb = [e for e in ev if e["ev"] == "FilterBegin"]
+        ub = [e.get("key") for e in ev if e["ev"] == "UpdateBegin"]
+        if m["family"] == "exec-callback":
+            n = sum(1 for e in fb if e.get("key") == "u:9000")
+            want_upd = {"drop": None, "replace": "u:77", "keep": "u:9000"}[m["verdict"]]
+            if n != 1:
+                bad.append(("C16:exec-callback", "the message of an Exec callback was shown to the filter %d times" % n, {"meta": m, "updates": ub}))
+            elif (want_upd is None and ("u:9000" in ub or "u:77" in ub)) or (want_upd is not None and (ub.count(want_upd) != 1 or (want_upd != "u:9000" and "u:9000" in ub))):
+                bad.append(("C16:exec-callback", "the filter's verdict (%s) on the message of an Exec callback was not obeyed: Update saw %s" % (m["verdict"], ub), {"meta": m, "updates": ub}))
+        else:
+            nsig = sum(1 for e in fb if e.get("key") in ("b:interrupt", "b:quit"))
+            if r["run_err"] != "killed" or not all("u:%d" % (40 + k) in ub for k in range(3)):
+                bad.append(("C16:signal-veto", "a filter suppressed every quit/interrupt request, yet SIG%s ended the program (Run: %s, filter consulted for %d signal messages)" % (m["sig"].upper(), r["run_err"], nsig),
+                            {"meta": m, "updates": ub, "run_err": r["run_err"]}))
+            elif nsig != 3:
+                bad.append(("C16:signal-veto", "3 signals were delivered, the filter was consulted for %d signal messages" % nsig, {"meta": m}))
+    res.oblige("Spec on real runs: the message of an Exec callback and the messages forwarded by the signal handler pass the filter once and its verdict is obeyed (%d runs)" % len(scs),
+               not bad, [b[:2] for b in bad[:2]])
+    res.coverage["extra_families"] = {"exec_callback": 6, "signal_veto": 2}
+    return bad
 
 
 def P_coq_opts(o):
